@@ -272,6 +272,7 @@ func c15(c *core.Ctx) {
 	// ---------------------------------------------------------------- R3
 	if c.Rule("R3", "service info mirrors grpc.Server's: every field of grpc.MethodInfo and grpc.ServiceInfo is populated from the matching descriptor field, one entry per method and per stream, keyed by desc.ServiceName", 5) {
 		c15ServiceInfo(c, reg)
+		c15MethodListFresh(c, reg)
 		c.EndRule()
 	}
 
@@ -512,4 +513,98 @@ func c15ServiceInfo(c *core.Ctx, reg *types.Named) {
 		}
 	})
 	c.Check(okAppend == 2, key+":one-entry-per-element", decl.Pos(), "one append per element in each of the two loops", fmt.Sprintf("expected one append in the Methods loop and one in the Streams loop, found %d", okAppend))
+}
+
+// c15MethodListFresh: the slice stored as a service's Methods is allocated for
+// that service: its append chain starts at a make()/nil inside the iteration
+// and never at a value carried around the service loop or a re-sliced earlier
+// list (lists sharing a backing array report each other's methods).
+func c15MethodListFresh(c *core.Ctx, reg *types.Named) {
+	p := c.P
+	fn := declaredMethod(p, reg, "GetServiceInfo")
+	if fn == nil {
+		return
+	}
+	key := core.FuncName(fn) + ":method-list-per-service"
+	// header blocks of loops ranging over a map (the service loop)
+	mapLoopHeader := map[*ssa.BasicBlock]bool{}
+	core.Instrs(fn, func(in ssa.Instruction) {
+		if nx, ok := in.(*ssa.Next); ok && !nx.IsString {
+			if rg, ok := nx.Iter.(*ssa.Range); ok {
+				if _, isMap := rg.X.Type().Underlying().(*types.Map); isMap {
+					mapLoopHeader[nx.Block()] = true
+				}
+			}
+		}
+	})
+	n := 0
+	core.Instrs(fn, func(in ssa.Instruction) {
+		st, ok := in.(*ssa.Store)
+		if !ok {
+			return
+		}
+		_, f, isF := core.FieldOf(st.Addr)
+		if !isF || f != "Methods" {
+			return
+		}
+		n++
+		bad, undec := "", ""
+		seen := map[ssa.Value]bool{}
+		var walk func(v ssa.Value)
+		walk = func(v ssa.Value) {
+			if seen[v] || bad != "" {
+				return
+			}
+			seen[v] = true
+			switch x := v.(type) {
+			case *ssa.Call:
+				if b, isB := x.Call.Value.(*ssa.Builtin); isB && b.Name() == "append" {
+					walk(x.Call.Args[0])
+					return
+				}
+				undec = "the list is the result of " + core.InfoOf(&x.Call).Full()
+			case *ssa.Phi:
+				if mapLoopHeader[x.Block()] {
+					bad = "the list's backing slice is carried from one service's iteration to the next"
+					return
+				}
+				for _, e := range x.Edges {
+					walk(e)
+				}
+			case *ssa.Slice:
+				bad = "the list is a re-slice of an existing slice (a scratch buffer reused across services)"
+			case *ssa.MakeSlice:
+				if core.LoopOf(fn)[x.Block()] < 0 {
+					bad = "the list's backing array is allocated once, outside the service loop"
+				}
+			case *ssa.Const:
+				if !x.IsNil() {
+					undec = "constant"
+				}
+			case *ssa.UnOp:
+				os := core.Origins(x)
+				if len(os) == 1 && os[0] == ssa.Value(x) {
+					undec = "a load the checker cannot resolve"
+					return
+				}
+				for _, o := range os {
+					walk(o)
+				}
+			default:
+				undec = fmt.Sprintf("%T", v)
+			}
+		}
+		walk(st.Val)
+		switch {
+		case bad != "":
+			c.Fail(key, st.Pos(), "%s: the Methods lists of different services share memory, so a service reports another service's methods (grpc.Server builds one list per service)", bad)
+		case undec != "":
+			c.Undecided(key, st.Pos(), "cannot trace where the Methods slice comes from (%s)", undec)
+		default:
+			c.Ok(key, st.Pos(), "the Methods slice is built by appends on a slice made inside the service loop")
+		}
+	})
+	if n == 0 {
+		c.Fail(key, fn.Pos(), "ANCHOR-MISSING: no store to a Methods field in GetServiceInfo")
+	}
 }
